@@ -54,6 +54,7 @@ class Prop:
     invariants: List[str] = field(default_factory=list)
     extra: Optional[Callable[["Run"], None]] = None      # additional machinery (trace validation...)
     replay: Optional[Callable[[Dict[str, Any]], int]] = None   # replays one recorded witness (properties without slices)
+    technique: Optional[str] = None                             # MANIFEST technique field (default: spec -> code replay)
 
 
 @dataclass
